@@ -576,7 +576,7 @@ func runIndexHistory(root string, job jobSpec) *histResult {
 			for _, o := range min {
 				lines = append(lines, o.String())
 			}
-			res.viol("nonlinearizable/index+corpus/"+class+"/"+racePair(min, ops)+"/"+anomalyClass(min),
+			res.viol("nonlinearizable/index+corpus/"+class+"/"+pairClass(min, ops)+"/"+anomalyClass(min),
 				fmt.Sprintf("[index+corpus kv=%s] the history of register %s (%d operations, %d after minimisation; unexplained reads: "+readKinds(min)+") has no linearization; minimal witness:\n  %s",
 					job.KV, k, len(ops), len(min), strings.Join(lines, "\n  ")),
 				witness(map[string]any{"register": k, "minimal_history": min, "full_history_ops": len(ops)}))
